@@ -1,5 +1,6 @@
 import SfntV.Drive.Parser
 import SfntV.Drive.Header
+import SfntV.Drive.Cmap
 
 open SfntV
 
@@ -10,6 +11,7 @@ def dispatch (line : String) : String :=
     let fs := fields rest
     if op.startsWith "parser." then Drive.Parser.handle op fs
     else if op.startsWith "header." then Drive.Header.handle op fs
+    else if op.startsWith "cmap" then Drive.Cmap.handle op fs
     else "unknown-op"
 
 partial def loop (hin : IO.FS.Stream) (hout : IO.FS.Stream) : IO Unit := do
